@@ -4,7 +4,7 @@ method calls / source bumps (every record carries its version) / zombie / deny /
 vanish / as_dict(attrs).  Reference: a per-block cache of first-read versions."""
 import errno
 
-from vf.harness import use_world, outcome, freeze
+from vf.harness import use_world, outcome, freeze, residue
 from vf.simk.world import World, Mapping, Thread
 
 SRCS = ("stat", "status", "smaps", "statm")
@@ -380,7 +380,12 @@ class Exec:
                 "top": cache_desc(top), "low": cache_desc(low),
                 "block": None if self.block is None else {s: rel(s, x) for s, x in self.block.items()},
                 "reads": self.block_reads, "bm": sorted(self.block_methods) if self.block is not None else None, "name": o._name is not None, "lastcpu": o._last_proc_cpu_times is not None,
-                "oreused": o._pid_reused, "ogone": o._gone}
+                "oreused": o._pid_reused, "ogone": o._gone,
+                # any per-object memory the hand-written part does not know about is kept concretely
+                "rest": residue(o, ("_pid", "_gone", "_pid_reused", "_name", "_hash", "_cache", "_exitcode", "_ident", "_create_time",
+                                    "_proc", "_lock", "_last_proc_cpu_times", "_last_sys_cpu_times", "_exe")),
+                "exe": o._exe is not None,
+                "prest": residue(o._proc, ("pid", "_cache", "_procfs_path", "_name")), "pname": o._proc._name is not None}
 
 
 _CFG = None
